@@ -66,6 +66,7 @@ def gen_cases(tier, seed):
                 "style": str(rng.choice(["uniform", "afm", "random"])),
                 "disorder": float(rng.choice([0.0, 0.5])), "noise": float(rng.choice([0.02, 0.1])),
                 "shift": float(rng.normal() * 0.5), "theta": float(rng.uniform(0.2, 1.2)),
+                "zeeman": float(rng.choice([0.0, 0.4, 1.0])) if (len(cases) % 2 == 0) else 0.0,
                 "s": int(rng.integers(1 << 30)), "group": "fs-%s-%s-%s-%s" % (l, ne, prop, trial), "cost": 6})
     # ---- fastslow
     for variant in ("onsite", "nn"):
@@ -78,6 +79,7 @@ def gen_cases(tier, seed):
                         "u": float(rng.choice([1.0, 4.0, 8.0])), "u1": float(rng.choice([0.5, 1.0, 2.0])),
                         "dt": float(rng.choice([0.01, 0.05, 0.2])), "noise": float(rng.choice([0.05, 0.3, 1.0])),
                         "style": str(rng.choice(["uniform", "afm", "random"])), "theta": float(rng.uniform(0.2, 1.2)),
+                        "zeeman": float(rng.choice([0.0, 0.5])),
                         "s": int(rng.integers(1 << 30)), "group": "fsl-%s-%s-%s-%s" % (variant, trial, l, ne), "cost": 4})
     return cases
 
@@ -90,6 +92,9 @@ def _setup(case, rng, n_walkers, variant="onsite", prop_kind="fast"):
 
     k = hubbard.lattice_h1(case["lattice"], rng, case.get("disorder", 0.0))
     n = k.shape[0]
+    z = case.get("zeeman", 0.0)
+    field = np.diag(z * np.array([(-1.0) ** i for i in range(n)]) + (0.3 * z))   # staggered + uniform Zeeman term
+    ka, kb = k + field, k - field
     na, nb = case["nelec"]
     u = case["u"]
     pairs = hubbard.neighbor_pairs(k)
@@ -105,7 +110,7 @@ def _setup(case, rng, n_walkers, variant="onsite", prop_kind="fast"):
         trial = wavefunctions.ghf_cpmc(n, (na, nb))
         wave_data = {"mo_coeff": jnp.array(hubbard.ghf_from_uhf(a, b, case["theta"]))}
     wave_data["rdm1"] = jnp.array([a @ a.T, b @ b.T])
-    ham_data = {"h0": jnp.array(0.0), "h1": jnp.array([k, k]), "chol": jnp.array(chol), "ene0": 0.0,
+    ham_data = {"h0": jnp.array(0.0), "h1": jnp.array([ka, kb]), "chol": jnp.array(chol), "ene0": 0.0,
                 "u": u}
     if variant == "nn":
         ham_data["u_1"] = case["u1"]
@@ -119,7 +124,7 @@ def _setup(case, rng, n_walkers, variant="onsite", prop_kind="fast"):
     ham = hamiltonian.hamiltonian(n)
     ham_data = ham.build_measurement_intermediates(ham_data, trial, wave_data)
     ham_data = ham.build_propagation_intermediates(ham_data, prop, trial, wave_data)
-    return dict(k=k, n=n, na=na, nb=nb, a=a, b=b, trial=trial, wave_data=wave_data, ham_data=ham_data,
+    return dict(k=k, ka=ka, kb=kb, n=n, na=na, nb=nb, a=a, b=b, trial=trial, wave_data=wave_data, ham_data=ham_data,
                 prop=prop, ham=ham, pairs=pairs)
 
 
@@ -274,7 +279,7 @@ def run_fieldsum(case):
         constraint = True
     F = fockref.get(n)
     phi = F.det(wu, wd)
-    Kop = F.onebody(S["k"])
+    Kop = F.onebody(S["ka"], S["kb"])
     dt, u = case["dt"], case["u"]
     low = (1 << n) - 1
     dbl = np.array([bin((m & low) & (m >> n)).count("1") for m in range(F.dim)])
